@@ -488,6 +488,9 @@ fn instantiate(r: &mut Rng, body: &str) -> String {
     for c in body.chars() {
         match c {
             '*' => out.push_str(r.ps(&["zz", "", "/q/", "x", "ad"])),
+            // inside the path (a '/' was already emitted) a separator placeholder is sometimes followed by a
+            // character the separator class excludes on purpose ('%', '_', '-'): near misses (round 10, C02j)
+            '^' if out.contains('/') && r.below(4) == 0 => out.push_str(r.ps(&["%20", "%", "_", "-"])),
             '^' => out.push_str(r.ps(&["/", "?", ":", "&", "=", "/", ""])),
             c => out.push(c),
         }
